@@ -202,6 +202,45 @@ Definition log_url_line (scheme : str) (ui : option userinfo) (host_path : str) 
 Definition log_short_url_line (scheme : str) (ui : option userinfo) (host_path : str) : str :=
   scheme ++ [58; 47; 47] ++ host_path.
 
+(* ---------------------------------------------------------------- --log-http: which mode a module ends up in
+   bind/flag.go HTTPLogConfig + bind/log.go httplogUpdate.  Every occurrence of --log-http (a Set call, itself a
+   comma separated list) appends its entries (module name or "" for the default, mode) to the flag's slice and
+   calls httplogUpdate(config, whole slice): a module takes the mode of the FIRST entry that names it, else the
+   mode of the LAST unnamed entry, else it keeps what it had. *)
+Definition lentry := (str * str)%type.
+Fixpoint find_named (m : str) (src : list lentry) : option str :=
+  match src with
+  | [] => None
+  | (n, x) :: r => if str_eqb n m then Some x else find_named m r
+  end.
+Fixpoint last_default (src : list lentry) : option str :=
+  match src with
+  | [] => None
+  | (n, x) :: r => match last_default r with
+                   | Some d => Some d
+                   | None => match n with [] => Some x | _ => None end
+                   end
+  end.
+Definition mode_after (cur m : str) (src : list lentry) : str :=
+  if httplog_named_always_marks_changed then
+    match find_named m src with
+    | Some x => x
+    | None => match last_default src with Some d => d | None => cur end
+    end
+  else (* the known bad shape: a named entry whose value equals the current one does not protect the module *)
+    match find_named m src, last_default src with
+    | Some x, Some d => if str_eqb x cur then d else x
+    | Some x, None => x
+    | None, Some d => d
+    | None, None => cur
+    end.
+(* the Set calls one after the other; `done` = what the flag's slice holds already *)
+Fixpoint run_sets (cur m : str) (done : list lentry) (calls : list (list lentry)) : str :=
+  match calls with
+  | [] => cur
+  | o :: r => run_sets (mode_after cur m (done ++ o)) m (done ++ o) r
+  end.
+
 (* ---------------------------------------------------------------- the flag table's own obligation *)
 Definition kind_requires (k : N) : N :=
   if N.eqb k K_USERINFO then R_USERINFO else if N.eqb k K_HPU then R_HPU else if N.eqb k K_B64 then R_B64 else R_NONE.
